@@ -1147,7 +1147,7 @@ func (c *execCtx) evalFunc(f *Func, sc *scope) (Value, error) {
 				st.seqIdx++
 				return v, nil
 			}
-			v, err := c.db.nextval(name)
+			v, err := c.db.nextval(c.sessionID(), name)
 			if err != nil {
 				return v, err
 			}
@@ -1156,7 +1156,7 @@ func (c *execCtx) evalFunc(f *Func, sc *scope) (Value, error) {
 			st.seqIdx++
 			return v, nil
 		}
-		return c.db.nextval(name)
+		return c.db.nextval(c.sessionID(), name)
 	case "currval":
 		name, err := argText(0)
 		if err != nil {
@@ -1196,6 +1196,9 @@ func (c *execCtx) evalFunc(f *Func, sc *scope) (Value, error) {
 		}
 		*p = v
 		c.db.seqCalled[normSeq(name)] = called
+		if local := c.db.seqLocal[c.sessionID()]; local != nil {
+			delete(local, normSeq(name)) // setval discards the calling session's preallocated values only
+		}
 		return Int(v), nil
 	case "hashtext":
 		s, err := argText(0)
@@ -1321,11 +1324,40 @@ func normSeq(name string) string {
 	return strings.ReplaceAll(name, `"`, "")
 }
 
-func (db *DB) nextval(name string) (Value, error) {
+func (c *execCtx) sessionID() int64 {
+	if c.conn == nil {
+		return 0
+	}
+	return c.conn.id
+}
+
+func (db *DB) nextval(session int64, name string) (Value, error) {
 	key := normSeq(name)
 	p, ok := db.sequences[key]
 	if !ok {
 		return Null, pgErr("42P01", "relation %q does not exist", name)
+	}
+	if n := db.seqCache[key]; n > 1 {
+		// CREATE SEQUENCE ... CACHE n: the session takes n values at once and hands them out one by one; what it has
+		// not used is lost when it ends, and other sessions draw their own ranges in the meantime
+		local := db.seqLocal[session]
+		if local == nil {
+			local = map[string]*[2]int64{}
+			db.seqLocal[session] = local
+		}
+		if r := local[key]; r != nil && r[0] <= r[1] {
+			v := r[0]
+			r[0]++
+			return Int(v), nil
+		}
+		first := *p + 1
+		if called, seen := db.seqCalled[key]; seen && !called {
+			first = *p
+		}
+		*p = first + n - 1
+		db.seqCalled[key] = true
+		local[key] = &[2]int64{first + 1, *p}
+		return Int(first), nil
 	}
 	if called, seen := db.seqCalled[key]; seen && !called {
 		db.seqCalled[key] = true
